@@ -341,7 +341,14 @@ class RealFS:
         self.fault = None
         self.fault_counts = {}
         self.opens = 0
-        self.dirs = set()
+
+    @property
+    def dirs(self):
+        out = {PREFIX.rstrip("/")}
+        for dp, dns, _ in os.walk(self.root):
+            for dn in dns:
+                out.add(PREFIX + os.path.relpath(os.path.join(dp, dn), self.root))
+        return out
 
     def _map(self, path):
         return os.path.join(self.root, os.fspath(path)[len(PREFIX):])
@@ -496,8 +503,8 @@ def install():
         return
     builtins.open = _open
     io.open = _open
-    os.path.exists = _exists
-    os.path.isdir = _isdir
+    # os.path.exists / isdir / isfile / getsize / samefile / islink are built on os.stat and
+    # look it up in `os` at call time, so owning os.stat/os.lstat covers them all
     os.mkdir = _mkdir
     # the rest of the path-level seam: os.path.isfile/getsize/samefile/islink and shutil's
     # copy/move helpers are built on these and are looked up in `os` at call time
